@@ -261,6 +261,7 @@ void adapter_exec(Ev *ev)
             A[i].skip = ev->a[p++]; A[i].hasw = ev->a[p++]; A[i].kind = ev->a[p++];
             store[i] = xblock(sizeof(RegisterAtom) * (size_t)A[i].size);
             memset(store[i], 0x77, sizeof(RegisterAtom) * (size_t)A[i].size);  /* init must zero memory areas */
+            memset(&areas[i].entry, 0x5A, sizeof areas[i].entry);      /* what init records per area must not depend on what was there */
             areas[i].base = (RegisterAddress)A[i].base + SH;
             areas[i].size = (RegisterOffset)A[i].size;
             areas[i].flags = (uint16_t)((A[i].rd ? REG_AF_READABLE : 0) | (A[i].wr ? REG_AF_WRITEABLE : 0) | (A[i].skip ? REG_AF_SKIP_DEFAULTS : 0));
